@@ -227,6 +227,7 @@ func init() {
 		maxFiles := fs.Int("maxfiles", 60, "files used")
 		casesPath := fs.String("cases", "", "comma separated semCase files: rendered schemas and their mutations")
 		nmut := fs.Int("mut", 300, "mutated generated schemas")
+		textsPath := fs.String("texts", "", "file of JSON strings: schema texts generated by TLC (GenEdge)")
 		out := fs.String("out", "-", "trace")
 		fs.Parse(args)
 		w := newNDWriter(*out)
@@ -279,6 +280,14 @@ func init() {
 				}
 				try(string(b))
 			}
+		}
+		if *textsPath != "" {
+			readLines(openIn(*textsPath), func(line []byte) {
+				var t string
+				if json.Unmarshal(line, &t) == nil {
+					try(t)
+				}
+			})
 		}
 		if *casesPath != "" {
 			var texts []string
